@@ -330,6 +330,8 @@ class RangeAnalysis:
         self.opaque_ok = opaque_ok      # x-dependent conditions we cannot interpret become nondeterministic branches
         self.opaque_x = []
         self.res = Resolver(body)
+        self.exact = {}              # x that reach a block through decided (or x-independent) branches only
+        self._edge_opaque = set()    # blocks whose outgoing branch is an undecided x-dependent predicate
         self.ptrmap = getattr(facts, 'ptrmap', None)    # {static name: index} for finite pointer domains (C20)
         self.reach = {}
         self.mixed = []        # (bb, reason) branches that depend on x in a way we cannot decide
@@ -707,6 +709,7 @@ class RangeAnalysis:
         work = []
         for e in self.entries:
             self.reach[e] = self.dom
+            self.exact[e] = self.dom
             work.append(e)
         order = {b: i for i, b in enumerate(body.rpo())}
         import heapq
@@ -726,6 +729,7 @@ class RangeAnalysis:
             cur = self.reach.get(b, ISet())
             if not cur:
                 continue
+            ex_b = self.exact.get(b, ISet())
             for s, sset in self.edges(b, cur):
                 if not sset:
                     continue
@@ -733,8 +737,13 @@ class RangeAnalysis:
                 new = old | sset
                 if s in self.entries:
                     new = self.dom
-                if new != old:
+                olde = self.exact.get(s, ISet())
+                newe = olde if b in self._edge_opaque else (olde | (ex_b & sset))
+                if s in self.entries:
+                    newe = self.dom
+                if new != old or newe != olde:
                     self.reach[s] = new
+                    self.exact[s] = newe
                     if s not in inq:
                         heapq.heappush(heap, (order.get(s, 1 << 30), s))
                         inq.add(s)
@@ -750,6 +759,8 @@ class RangeAnalysis:
             if v.all_top():
                 # does the condition depend on x at all?
                 dep = self.depends_on_x(cond, b) or self.mentions_env(cond)
+                if dep:
+                    self._edge_opaque.add(b)
                 if self.opaque_ok and dep:
                     self.opaque_x.append(b)
                 elif dep:
@@ -768,6 +779,7 @@ class RangeAnalysis:
                 out.append((tgt, s))
             out.append((t['otherwise'], rest))
             if unknown:
+                self._edge_opaque.add(b)
                 if self.opaque_ok:
                     self.opaque_x.append(b)
                 else:
@@ -796,6 +808,9 @@ class RangeAnalysis:
     # ---------------------------------------------------------------- queries
     def reach_of(self, bb):
         return self.reach.get(bb, ISet())
+
+    def exact_of(self, bb):
+        return self.exact.get(bb, ISet())
 
     def blocks_assigning_const(self, local, value=None):
         """[(bb, const)] for statements `local = const` (whole-local)."""
